@@ -144,6 +144,7 @@ class Event:
     depth: int = 0
     old: Any = None  # for stores: abstract value of the cell before the store
     hpos: int = 0  # heap length when the event happened (for load_at)
+    ret: Any = None  # abstract value returned by an opaque / indirect call
 
     @property
     def line(self) -> int:
@@ -168,6 +169,8 @@ class LoopSummary:
     paths: List["PathResult"] = field(default_factory=list)  # one per abstract path through the body
     fn: Optional[str] = None
     stored_roots: Tuple[str, ...] = ()
+    pre_env: Dict[str, Any] = field(default_factory=dict)
+    assigned: Tuple[str, ...] = ()
 
 
 class State:
@@ -221,7 +224,8 @@ class Interp:
         axioms: bool = True,
     ):
         self.p = program
-        self.no_inline = dict(no_inline or {})
+        self.no_inline = {"function_from_address": [], "build_function_address_list": []}
+        self.no_inline.update(no_inline or {})
         self.assume_globals = dict(assume_globals or {})
         self.max_depth = max_depth
         self.max_paths = max_paths
@@ -572,10 +576,7 @@ class Interp:
                 probe = st0.fork()
                 self._havoc_loop(probe, assigned, roots, loop_id)
                 saved_n = self.n
-                try:
-                    self._loop_body(s, probe, itv, loop_id, is_for)
-                finally:
-                    pass
+                self._loop_body(s, probe, itv, loop_id, is_for, None)
                 new_roots = [r for r in dict.fromkeys(self.stored_roots[mark:]) if r not in roots]
                 del self.stored_roots[mark:]
                 if not new_roots:
@@ -583,8 +584,10 @@ class Interp:
                 roots.extend(new_roots)
             hst = st0.fork()
             self._havoc_loop(hst, assigned, roots, loop_id)
-            body_res, index, exit_states = self._loop_body(s, hst.fork(), itv, loop_id, is_for)
-            summ = LoopSummary(s, loop_id, "for" if is_for else "while", itv, index, [], self.fq(), tuple(roots))
+            summ = LoopSummary(s, loop_id, "for" if is_for else "while", itv, None, [], self.fq(), tuple(roots),
+                               dict(st0.env), tuple(assigned))
+            body_res, index, exit_states = self._loop_body(s, hst.fork(), itv, loop_id, is_for, summ)
+            summ.index = index
             for r in body_res:
                 summ.paths.append(r)
             # normal exits
@@ -612,7 +615,7 @@ class Interp:
         for r in roots:
             self.havoc_root(st, r)
 
-    def _loop_body(self, s: ast.stmt, st: State, itv: Any, loop_id: int, is_for: bool):
+    def _loop_body(self, s: ast.stmt, st: State, itv: Any, loop_id: int, is_for: bool, summ: Optional[LoopSummary]):
         """Analyse one abstract iteration.  Returns (body results, index symbol, exit states)."""
         exit_states: List[State] = []
         index: Optional[Aff] = None
@@ -621,11 +624,11 @@ class Interp:
             exit_states.append(st.fork())
             index = Aff.atom(("it", loop_id))
             tgt_val = self._iter_element(itv, index, st, s)
-            self.ev(st, "iter", s, value=loop_id)
+            self.ev(st, "iter", s, value=loop_id, loop=summ)
             self.assign(s.target, tgt_val, st, s)
             starts.append(st)
         else:
-            self.ev(st, "iter", s, value=loop_id)
+            self.ev(st, "iter", s, value=loop_id, loop=summ)
             for st2, taken in self.branch(s.test, st, s):
                 if taken:
                     starts.append(st2)
@@ -993,7 +996,7 @@ class Interp:
     def subscript(self, base: Any, idx: Tuple[Any, ...], st: State, node: ast.AST) -> Any:
         base = as_view(base)
         if isinstance(base, View):
-            return View(base.root, base.idx + idx)
+            return View(base.root, self.compose_index(st, base.idx, idx))
         if isinstance(base, Tup):
             if len(idx) == 1 and isinstance(idx[0], Aff) and idx[0].is_const():
                 k = idx[0].c
@@ -1005,6 +1008,50 @@ class Interp:
             r = self.fresh_root("sub", ("subscript", base))
             return View(r.root, idx)
         return self.fresh("unk")
+
+    def compose_index(self, st: State, old: Tuple[Any, ...], new: Tuple[Any, ...]) -> Tuple[Any, ...]:
+        """NumPy view composition: the new index components address, in order, the dimensions that the
+        existing prefix left open (':' / slice / fancy); what remains is appended."""
+        out = list(old)
+        pos = 0
+        rest: List[Any] = []
+        for c in new:
+            while pos < len(out) and isinstance(out[pos], Aff):
+                pos += 1
+            if pos >= len(out):
+                rest.append(c)
+                continue
+            o = out[pos]
+            if o == ALL:
+                out[pos] = c
+            elif isinstance(o, tuple) and o[0] == "slice":
+                lo, hi = o[1], o[2]
+                if isinstance(c, Aff):
+                    if c.is_const() and c.c < 0:
+                        out[pos] = (hi + c) if hi is not None else c
+                    else:
+                        out[pos] = (lo + c) if lo is not None else c
+                elif c == ALL:
+                    pass
+                elif isinstance(c, tuple) and c[0] == "slice":
+                    nlo = (lo + c[1]) if (lo is not None and c[1] is not None and not (c[1].is_const() and c[1].c < 0)) else (c[1] if lo is None else None)
+                    out[pos] = ("slice", nlo, None) if nlo is not None or lo is None else ("slice", lo, None)
+                    if c[2] is not None or hi is not None:
+                        out[pos] = ("slice", out[pos][1], ("?",))  # unknown upper end
+                else:
+                    out[pos] = ("fancy", ("of-slice", o, c))
+            elif isinstance(o, tuple) and o[0] == "fancy":
+                inner = o[1]
+                if isinstance(c, Aff) and isinstance(inner, View):
+                    out[pos] = self.scalar(st, View(inner.root, self.compose_index(st, inner.idx, (c,))))
+                elif isinstance(c, Aff) and isinstance(inner, Tup) and c.is_const() and 0 <= c.c < len(inner.items):
+                    out[pos] = self.scalar(st, inner.items[c.c])
+                elif c == ALL:
+                    pass
+                else:
+                    out[pos] = ("fancy", ("of-fancy", o, c))
+            pos += 1
+        return tuple(out) + tuple(rest)
 
     def e_Subscript(self, e: ast.Subscript, st: State):
         out = []
@@ -1052,12 +1099,13 @@ class Interp:
                 base_root, meth = fv.root.rsplit(".", 1)
                 return self.call_method(View(base_root, ()), meth, args, kwargs, st, node)
             # indirect call through a table / function value
-            self.ev(st, "icall", node, recv=fv, args=tuple(args), kwargs=kwargs, name=repr(fv))
+            ev = self.ev(st, "icall", node, recv=fv, args=tuple(args), kwargs=kwargs, name=repr(fv))
             for a in args:
                 a = as_view(a)
                 if isinstance(a, View):
                     self.havoc_root(st, a.root)
-            return [(st, self.fresh_root("iret", ("icall", fv, tuple(args))))]
+            ev.ret = self.fresh_root("iret", ("icall", fv, tuple(args)))
+            return [(st, ev.ret)]
         if isinstance(fv, ClassVal):
             self.ev(st, "call", node, name=f"{fv.module}:{fv.name}", args=tuple(args), kwargs=kwargs)
             return [(st, self.fresh_root(fv.name, ("new", fv.module, fv.name, tuple(args), kwargs)))]
@@ -1073,14 +1121,15 @@ class Interp:
         too_deep = len(self.cur_fn) >= self.max_depth
         filtered = self.inline_filter is not None and not self.inline_filter(fn)
         if opaque or recursive or too_deep or filtered:
-            self.ev(st, "call", node, name=fn.fq, args=tuple(args), kwargs=kwargs,
-                    value="opaque" if opaque else ("recursive" if recursive else "depth"))
+            ev = self.ev(st, "call", node, name=fn.fq, args=tuple(args), kwargs=kwargs,
+                         value="opaque" if opaque else ("recursive" if recursive else "depth"))
             positions = self.no_inline.get(fn.name)
             for i, a in enumerate(args):
                 a = as_view(a)
                 if isinstance(a, View) and (positions is None or i in positions):
                     self.havoc_root(st, a.root)
-            return [(st, self.fresh_root("ret", ("call", fn.fq, tuple(args))))]
+            ev.ret = self.fresh_root("ret", ("call", fn.fq, tuple(args)))
+            return [(st, ev.ret)]
         params = fn.params
         env: Dict[str, Any] = {}
         for i, a in enumerate(args):
@@ -1182,8 +1231,9 @@ class Interp:
             self.ev(st, "call", node, name=nm, args=tuple(args), kwargs=kwargs, value=v)
             return [(st, v)]
         # default: opaque pure function of its arguments
-        self.ev(st, "call", node, name=nm, args=tuple(args), kwargs=kwargs)
-        return [(st, self.fresh_root("ret", ("call", nm, tuple(args), kwargs)))]
+        ev = self.ev(st, "call", node, name=nm, args=tuple(args), kwargs=kwargs)
+        ev.ret = self.fresh_root("ret", ("call", nm, tuple(args), kwargs))
+        return [(st, ev.ret)]
 
     PURE_METHODS = {"min", "max", "copy", "reshape", "sum", "all", "any", "astype", "tolist", "item", "get", "qsize",
                     "is_alive", "debug", "info", "warning", "error", "keys", "values", "items", "format"}
